@@ -40,6 +40,9 @@ ObsKey(o) == <<IF o.kind = "rejected" THEN "nomethod" ELSE o.kind,
 CallClause(st) ==
   LET c45 == IF ("C04" \in Props \/ "C05" \in Props)
              THEN IF st.fresh_methods # live THEN "premise.method_set"
+                  \* the error object of a failing call is this call's own: not the one an earlier call was given
+                  \* (whose traceback and notes it would carry along)
+                  ELSE IF "reused" \in DOMAIN st.obs THEN (IF "C05" \in Props THEN "C05:same_as_rebuilt" ELSE "C04:same_as_fresh") \o ".error_object_of_an_earlier_call"
                   ELSE IF ObsKey(st.obs) # ObsKey(st.fresh)
                        THEN (IF "C05" \in Props THEN "C05:same_as_rebuilt" ELSE "C04:same_as_fresh")
                   ELSE ""
